@@ -279,7 +279,8 @@ func (w *lcWorld) newCounterparty(kind string, seed int64) *counterparty {
 		epoch := uint64(3 + r.Intn(6))
 		b.contract = common.BytesToAddress(ethcrypto.Keccak256([]byte("xibc-contract"))[12:])
 		b.state.account(b.contract).Nonce = 1
-		h0 := uint64(1+r.Intn(5)) * epoch
+		// now and then the counterparty is a young chain whose head is still its genesis block
+		h0 := uint64(r.Intn(6)) * epoch
 		b.m = &parlia{chainID: big.NewInt(56), epoch: epoch, vals: vals, pending: vals, recents: map[uint64]common.Address{}, roots: map[uint64]common.Hash{}, times: map[uint64]uint64{}}
 		b.nextList = vals
 		sn := b.state.snapshot()
@@ -303,7 +304,7 @@ func (w *lcWorld) newCounterparty(kind string, seed int64) *counterparty {
 		e.state.account(e.contract).Nonce = 1
 		sn := e.state.snapshot()
 		g := &ethtypes.Header{ParentHash: common.Hash{7}, UncleHash: ethtypes.EmptyUncleHash, Root: sn.root, TxHash: ethtypes.EmptyRootHash, ReceiptHash: ethtypes.EmptyRootHash,
-			Difficulty: big.NewInt(2), Number: big.NewInt(int64(1 + r.Intn(100))), GasLimit: 30_000_000, GasUsed: 15_000_000, Time: uint64(w.now.Unix()),
+			Difficulty: big.NewInt(2), Number: big.NewInt(int64(r.Intn(6)) * int64(r.Intn(20))), GasLimit: 30_000_000, GasUsed: 15_000_000, Time: uint64(w.now.Unix()),
 			BaseFee: big.NewInt(1_000_000_000), Extra: []byte("tsim")}
 		root := &ethNode{h: g, sn: sn, accepted: true, honest: true}
 		e.addNode(root)
